@@ -12,6 +12,7 @@
     - [idx_top_raw_refuted]: finding F2 on the unclamped index;
     - [monotone_partition]: the abstract statement over consecutive integers. *)
 From Coq Require Import ZArith Reals Bool List Lia Lra.
+Import ListNotations.
 From Flocq Require Import Core.Core IEEE754.BinarySingleNaN.
 Require Import JF.Base.F64 JF.Base.PyFloat JF.Model.Cells JF.Model.CellsCases.
 Local Open Scope R_scope.
@@ -672,3 +673,40 @@ Lemma extent_loops_correct_lemma :
      upper_loops fuel next_float_up next_float_down (idx s n) i start = Some r ->
      inD top r /\ idx s n r = i /\ (forall y, inD top y -> idx s n y = i -> (val y <= val r)%R)).
 Proof. split; [exact lower_loops_min | exact upper_loops_max]. Qed.
+
+(** ** all directions together: position_to_cell returns a cell of the grid *)
+Require Import JF.Model.CellIndex JF.Proofs.CellIndexProofs.
+Lemma idx_vec_valid : forall (ss : list f64) (ns xs : list Z),
+  length ns = length ss -> length xs = length ss ->
+  Forall (fun s => (0 < val s)%R) ss -> Forall (fun n => 1 <= n) ns ->
+  Forall (fun x => ffinite (of_bits x) = true /\ (0 <= val (of_bits x))%R) xs ->
+  valid ns (idx_vec ss ns xs).
+Proof.
+  induction ss as [|s ss IH]; intros [|n ns] [|x xs] Hn Hx Hs Hns Hxs; simpl in *; try discriminate.
+  - constructor.
+  - inversion Hs; inversion Hns; inversion Hxs; subst. constructor.
+    + apply CellsProofs.idx_in_range; tauto.
+    + apply IH; auto.
+Qed.
+
+Lemma position_to_cell_in_grid_lemma : forall (ss : list f64) (ns xs : list Z),
+  length ns = length ss -> length xs = length ss ->
+  Forall (fun s => (0 < val s)%R) ss -> Forall (fun n => 1 <= n) ns ->
+  Forall (fun x => ffinite (of_bits x) = true /\ (0 <= val (of_bits x))%R) xs ->
+  valid ns (idx_vec ss ns xs) /\ 0 <= flat ns (idx_vec ss ns xs) < number_of_cells ns.
+Proof.
+  intros ss ns xs H1 H2 H3 H4 H5. pose proof (idx_vec_valid ss ns xs H1 H2 H3 H4 H5) as V.
+  split; [exact V | apply CellIndexProofs.flat_range; exact V].
+Qed.
+
+(** ** concrete floats and tactics for the non-vacuity examples of Props/C16.v
+    L = 1.0, 3 cells (the grid of finding F2). *)
+Definition ex_L : f64 := fone.
+Definition ex_s : f64 := side ex_L 3.
+Definition ex_top : f64 := fpred ex_L.
+Definition ex_quarter : f64 := of_bits 0x3FD0000000000000.
+Definition ex_mins : list f64 := map of_bits [0; 0x3FD5555555555555; 0x3FE5555555555555].
+
+Ltac by_eval := vm_compute; reflexivity.
+Ltac ex_inD := split; [by_eval | split; [change 0%R with (val fzero) |]; apply fle_spec; by_eval].
+
